@@ -54,6 +54,12 @@ CATALOGUE = {
         ('o_str', 'T', 'str', False),
         ('o_f32', 'T', 'float32', False),
     ],
+    # optional scalars with declared defaults (one of them not representable in its own type)
+    'vx_d': [
+        ('d_f32', 'T', 'float32', False),
+        ('d_f64', 'T', 'float64', False),
+        ('d_i32', 'T', 'int32', False),
+    ],
     'vx_wide': [
         ('w0', 'TSP', 'float64', True),
         ('w1', 'TSP', 'float64', True),
@@ -80,12 +86,16 @@ def register_catalogue():
         kw = {}
         for fname, dims, dt, req in fields:
             ft = str if dt == 'str' else getattr(np, dt)
+            extra = {}
+            if name == 'vx_d':
+                extra['default'] = {'d_f32': 0.1, 'd_f64': 0.1, 'd_i32': 7}[fname]
             kw[fname] = FieldMetadata(
                 dimensions=Dimensions.from_abbrev(dims),
                 field_type=ft,
                 description=f'harness field {fname}',
                 units='u',
                 required=req,
+                **extra,
             )
         FieldSet(name, **kw)
     for name in ['base', 'emissions'] + list(CATALOGUE):
@@ -259,6 +269,8 @@ def build_traj(spec: dict):
                 raise ValueError(dims)
             if fname in unset:
                 val = None
+            if fname in spec.get('keep_default', []):
+                continue        # the field keeps the value it was created with (its declared default)
             setattr(t, fname, _track(val))
     for fname in spec.get('set_none', []):
         # bypass type conversion exactly like a caller that forgot a value
